@@ -106,9 +106,10 @@ impl ParseData for FromMetaOptions {
                 }
             }
             Data::Enum(ref data) => {
+                // `word = false` opts out: only a true value designates the word variant.
                 let word_variants: Vec<_> = data
                     .iter()
-                    .filter_map(|variant| variant.word.as_ref())
+                    .filter_map(|variant| variant.word.as_ref().filter(|word| ***word))
                     .collect();
 
                 if !word_variants.is_empty() {
